@@ -1031,6 +1031,9 @@ impl Walrus {
             // Set when parsing stopped for the entry cap or the byte budget: entries of this
             // range remain unread, so later ranges must not be delivered ahead of them.
             let mut stopped_short = false;
+            // Set when parsing hit a zeroed or invalid header: the rest of the block is dead
+            // (rolled-back) space and the next range may be parsed.
+            let mut hit_dead_space = false;
 
             while buf_offset < buffer.len() {
                 if entries.len() >= MAX_BATCH_ENTRIES {
@@ -1047,6 +1050,7 @@ impl Walrus {
 
                 if meta_len == 0 || meta_len > PREFIX_META_SIZE - 2 {
                     // Invalid or zeroed header - stop parsing this block
+                    hit_dead_space = true;
                     break;
                 }
 
@@ -1141,7 +1145,9 @@ impl Walrus {
 
             // A sealed range that was planned only partially (raw-byte budget ended inside the
             // block) also leaves entries of that block unread.
-            if stopped_short || (!read_plan.is_tail && read_plan.end < read_plan.blk.used) {
+            if stopped_short
+                || (!hit_dead_space && !read_plan.is_tail && read_plan.end < read_plan.blk.used)
+            {
                 break;
             }
         }
